@@ -60,3 +60,19 @@ CLAIMS["C18"] = (
     "Trusts Model.update_variables to restore Variable objects; exceptional exits (a failing steady state raising) are not required to restore.",
     "DESIGN.md section 4 C18",
 )
+CLAIMS["C16"] = (
+    "index-role classification (gather vs scatter) of the two label-map readers, located by role, plus sympy canonicalisation of the per-position transfer terms",
+    "Decides the direction clause the statement itself names, for ALL maps at once: the function LinearLabelMapper.build_model applies to the substrate positions and LabelMapper's reader both use map elements as load indices into the substrate sequence (gather = the documented reading), "
+    "which identity/reversal-map tests cannot distinguish from the inverse; additionally the shape of the per-position label transfer (rate = label*flux, -1/pool and +1/pool coefficients, EXT padding at the end). "
+    "It does not decide the equality of the two models' rates of change, stationarity of uniform enrichment or absence of spontaneous label.",
+    "Documented direction taken from docs/label-models.ipynb; readers with unrecognised shapes give exit 2.",
+    "DESIGN.md section 4 C16, Appendix A.4",
+)
+CLAIMS["C05"] = (
+    "dominance and loop-shape checks on the isotopomer reaction generator, index-role classification of its map reader, unit-step check of the stoichiometry repacker",
+    "A deliberately thin structural slice: (L1) the short-map rejection dominates reaction creation; (L2) the pattern loop ranges over the full {0,1}^n product with exactly one uniquely named add_reaction per pattern and no filter; "
+    "(L3) the map is read as gather; (L4) each substrate/product occurrence changes its coefficient by -1/+1; (L5) external positions are appended, labelled, before mapping. These are necessary conditions of 'exactly one isotopomer reaction per pattern', "
+    "'one isotopomer per unit of base stoichiometry', 'position i gets the label of the position the map names' and 'a short map is rejected'. The algebraic identities (totals, atom conservation, collapse to the base dynamics) are NOT decided - no structural surrogate exists for them.",
+    "Trusts itertools.product; initial label placement and derived totals in LabelMapper.build_model are not analysed.",
+    "DESIGN.md section 4 C05",
+)
